@@ -259,6 +259,16 @@ def run(ctx):
     joins = [n for n in walk_local(wb.node) if isinstance(n, ast.Call) and isinstance(n.func, ast.Attribute) and n.func.attr == "join"]
     ok = len(joins) == 1 and isinstance(joins[0].func.value, ast.Constant) and joins[0].func.value.value == "\n"
     ctx.check("C15.R9", "writer: documents joined with a single '\\n'", ok, wb.where(), f"write_buffer: {[norm(j)[:60] for j in joins]}", "records must be separated by newlines")
+    # each document is a single line of plain-ASCII JSON text in the order the encoder built it: json.dumps options that
+    # spread a document over lines, reorder its keys, let non-ASCII text through raw or change how values are converted
+    dumps = [n for n in walk_local(wb.node) if isinstance(n, ast.Call) and norm(n.func) in ("json.dumps", "dumps")]
+    defaults = {"ensure_ascii": True, "indent": None, "sort_keys": False, "default": None, "cls": None, "skipkeys": False}
+    for d_ in dumps:
+        changed = [kw.arg for kw in d_.keywords if kw.arg in defaults and not (isinstance(kw.value, ast.Constant) and kw.value.value == defaults[kw.arg] and type(kw.value.value) is type(defaults[kw.arg]))]
+        if any(kw.arg is None for kw in d_.keywords):
+            ctx.unrecognised("C15.R9", "writer: json.dumps options", wb.where(d_), "options passed as **mapping")
+            continue
+        ctx.check("C15.R9", "writer: json.dumps with the default text options (one ASCII line per document, keys in the order written)", not changed, wb.where(d_), f"write_buffer: {norm(d_)[:80]}", f"option(s) {changed} change the text of a document: more than one line per record, reordered fields, or characters that depend on the output stream's encoding")
     di = decJ.methods["__init__"]
     bad = [n for n in ast.walk(di.node) if isinstance(n, ast.Call) and isinstance(n.func, ast.Attribute) and n.func.attr == "splitlines"]
     loads = [n for n in ast.walk(di.node) if isinstance(n, ast.Call) and norm(n.func) == "json.loads"]
